@@ -305,7 +305,7 @@ def run(tier, seed):
     quick = tier == 'quick'
     rep = Report(PID, tier, seed, 'model_checking')
     common.build_mmdump()
-    mirs = [common.dump_mir('mimium_lang')[0], common.dump_mir('state_tree')[0]]
+    mirs = common.prog_mirs()
     rng = random.Random(seed)
     base = shapes(1, 2)
     # every unary nesting up to depth 3 (container in container in container, width <= 1): encoders like to special-case
